@@ -214,9 +214,21 @@ pub fn run(ctx: &mut Ctx) {
                 let n = ((t - start) * fperiod) as f64;
                 let per = |l: f64| rate as f64 / clampf0(l.exp());
                 let onset = per(lf0s[start]);
-                let pmax = lf0s[start..t].iter().map(|l| per(*l)).fold(0.0f64, f64::max);
+                // upper envelope of what the counter can still hold at the end of the run: it is
+                // below the period in force, except for a surplus left by a falling period, which
+                // drains by (period - 1) per sample
+                let mut cmax = onset;
+                for fr in start..t {
+                    let p1 = per(lf0s[fr]);
+                    let a = if fr > start { per(lf0s[fr - 1]) } else { p1 };
+                    let inc = (p1 - a) / fperiod as f64;
+                    for i in 0..fperiod {
+                        let p = a + i as f64 * inc;
+                        cmax = (cmax + 1.0).min(p).max(cmax + 1.0 - p);
+                    }
+                }
                 let sum: f64 = x[start * fperiod..t * fperiod].iter().map(|v| v * v).sum();
-                let (lo, hi) = (n + onset - pmax - 1.0, n + onset + 1e-6 * n);
+                let (lo, hi) = (n + onset - cmax - 1.0, n + onset + 1e-6 * n);
                 ctx.count("voiced_runs_balanced", 1.0);
                 if sum < lo - 1e-6 * n || sum > hi {
                     ctx.violation(
